@@ -58,7 +58,7 @@ def run_job(job):
         res["status"] = "error"
         res["reason"] = "goto-instrument failed: " + (se + so)[-3000:]
         return res
-    flags = [f for f in DEFAULT_CHECKS if f not in spec.noflags] + list(spec.flags)
+    flags = [f for f in DEFAULT_CHECKS if f not in spec.noflags] + ["--no-" + f[2:] for f in spec.noflags] + list(spec.flags)
     cmd3 = ["cbmc", base + ".b.gb", "--json-ui", "--trace"] + flags
     if spec.solver:
         cmd3 += [spec.solver] if isinstance(spec.solver, str) else list(spec.solver)
@@ -111,8 +111,6 @@ def run_job(job):
         if "VERIF_CANARY" in desc:
             canary_seen = True
             if st != "FAILURE":
-                res["status"] = "vacuous"
-                res["reason"] = "canary assertion at end of harness is not reachable (status %s): contradictory precondition" % st
                 res["canary"] = st
             continue
         label = None
@@ -154,7 +152,10 @@ def run_job(job):
         elif st != "SUCCESS":
             n_unknown += 1
         res["obligations"].append(ob)
-    if res["status"] == "vacuous":
+    if res.get("canary") and not n_fail:
+        # (a failed obligation before the end of the harness -- e.g. a callee precondition -- legitimately cuts the path)
+        res["status"] = "vacuous"
+        res["reason"] = "canary assertion at end of harness is not reachable (status %s): contradictory precondition" % res["canary"]
         return res
     if not canary_seen:
         res["status"] = "error"
